@@ -17,7 +17,7 @@ META = {
            'document model (for objects: every member by key, absent keys, slot iteration order, positional access while no slot was removed; Size between member count and member '
            'count + removed slots), sources of copies are re-read after the copy was mutated and released, moved-from values must be Undefined, pointer targets must be unchanged, '
            'and every allocation must be released (memory-leak check + LeakSanitizer on replay). COERCE queries: 15 concrete texts ("0", "123", "-5", "1.5", "1e2", "true", "false", '
-           '"12a", "007", ...) with their expected reading. quick: 5 pre-state classes x representative variants (279 queries); thorough: 35 classes (2672 queries).',
+           '"12a", "007", ...) with their expected reading. quick: 5 + 6 pre-state classes x representative variants (~270 queries); thorough: 35 classes (~2680 queries).',
  'outside': 'containers with more than 2 members before the operation (results have up to 4); nesting deeper than 2; keys outside the 4-key universe / longer than 2 units; histories longer than '
             'construction + 1 operation; string -> number coercion for symbolic texts (160 s for ONE symbolic unit; C09 covers the scanner itself); GetInt64/GetUInt64 of a Double outside '
             '(-4e18, 4e18) (the cast is undefined behaviour there - see open questions); Value::End() and Value::IsPointerToValue() (they do not compile when instantiated: Value.hpp:1277, 2117); '
@@ -28,7 +28,7 @@ META = {
                  'the model follows the implementation where the documentation is silent: += on a value that is not an array first discards it; Merge on an Undefined value makes it an empty array '
                  'even when nothing is merged; += of an EMPTY Array appends it as a member while a non-empty one is spliced; v[index] on an object without such a live slot discards the object; '
                  'containers compare / report Size() including removed slots',
-                 'while C12-ctor-payload-uninit is open: the storage a value is constructed in has zero bytes at offset 8..15',
+                 'while C12-ctor-payload-uninit is open: the storage a value is constructed in has zero bytes at offset 8..15 (the number and string constructors leave them as they were)',
                  'while C12-assign-type-no-reset is open: operator=(ValueType) is applied to Undefined / True / False / Null values only',
                  'while C12-setptr-null is open: SetPointerToValue(nullptr) is applied to Undefined values only',
                  'while C12-append-moved-member is open: v += move(member of v) is applied only when the array has spare room',
@@ -134,8 +134,8 @@ def queries(tier):
     qs = []
     if q:
         plan = [('A_U_I', 1), ('O_a.UI_b.S', 1), ('UI', 0), ('S1', 0), ('P_UI', 0)]
-        side = ['U', 'NUL', 'D', 'O', 'O_a.X_b.UI', 'O_a.U_b.T', 'P_O_a.UI']
-        srcs = ['UI', 'A_UI', 'O_a.UI']
+        side = ['U', 'D', 'O', 'O_a.X_b.UI', 'O_a.U_b.T', 'P_O_a.UI']
+        srcs = ['A_UI', 'O_a.UI']
     else:
         plan = [(p, 2) for p in ('UI', 'S1', 'A_U_I', 'O_a.UI_b.S', 'O_a.X_b.UI')] + \
                [(p, 1) for p in ('U', 'NUL', 'D', 'S0', 'S2', 'A', 'A_UI', 'A_T_S', 'O', 'O_a.UI', 'O_e.NUL_ab.D', 'O_a.U_b.T', 'P_UI', 'P_A_UI', 'P_O_a.UI')]
